@@ -5,7 +5,7 @@ sys.path.insert(0, os.path.join(core.VERIF, "tools"))
 import lat_registry as LR
 
 MODULES = ["AscentVerif.Props.C16Basic", "AscentVerif.Props.C16Struct", "AscentVerif.Props.TieD"]
-THEOREMS = ["constProp_pcmp_eq", "constProp_meet_eq", "constProp_join_eq", "constProp_meetMut_eq", "constProp_joinMut_eq", "combineOrderings_eq", "option_meetMut_eq", "option_joinMut_eq", "join_comm", "meet_comm", "join_assoc", "meet_assoc", "join_idem", "meet_idem", "join_meet_absorb", "meet_join_absorb",
+THEOREMS = ["constProp_pcmp_eq", "constProp_meet_eq", "constProp_join_eq", "constProp_meetMut_eq", "constProp_joinMut_eq", "combineOrderings_eq", "option_meetMut_eq", "option_joinMut_eq", "dual_pcmp_eq", "dual_cmp_eq", "dual_meet_eq", "dual_join_eq", "dual_meetMut_eq", "dual_joinMut_eq", "dual_top_eq", "dual_bottom_eq", "join_comm", "meet_comm", "join_assoc", "meet_assoc", "join_idem", "meet_idem", "join_meet_absorb", "meet_join_absorb",
             "le_iff_join_eq", "le_iff_meet_eq", "joinMut_truthful", "meetMut_truthful", "joinMut_idle",
             "lawfulLinOrd_int", "lawfulLinOrd_bool", "lawfulLinOrd_bint", "lawfulLinOrd_prod", "lawfulLinOrd_dualLin", "lawful_prim", "lawfulB_prim_bint",
             "lawfulB_prim_bool", "lawful_option", "lawfulB_option", "lawful_boxed", "lawful_shared", "lawful_dual", "lawfulB_dual",
@@ -16,6 +16,7 @@ TRUSTED = ["Lean 4.33.0 kernel", "axioms: propext, Classical.choice, Quot.sound 
            "statements: Spec/LatticeLaws.lean (LawfulLat, LawfulBLat) and Props/C16Basic.lean, Props/C16Struct.lean",
            "tie D: ConstPropagation (partial_cmp, meet, join, meet_mut, join_mut), combine_orderings and Option's meet_mut/join_mut are RE-TRANSLATED from the "
            "Rust source on every run (tools/rs2lean.py -> lean/AscentVerif/Generated) and proved equal to the hand-written model (Props/TieD.lean); the translator is trusted",
+           "tie D also covers dual.rs: partial_cmp / cmp / meet / join / meet_mut / join_mut / top / bottom of Dual<T> are re-translated on every run and proved equal to the model's Dual / DualLin instances (dual_*_eq)",
            "model Model/Lattice.lean is hand-written, arm by arm after ascent_base/src/lattice*.rs; tied by exhaustive pair "
            "correspondence over small carriers (harness/ds lat ops vs Lean driver) for 52 registered types incl. nested compositions",
            "modelled not verified: std's derived PartialOrd/Ord for Option and tuples, BTreeSet, Rc/Arc::make_mut (value semantics), "
